@@ -283,7 +283,7 @@ def check():
             push = [e for e in tcalls if e[1] == "Vec::push"]
             addn = [e for e in tcalls if e[1].endswith("::add_node")]
             mins = [e for e in tcalls if e[1] == "ModuleSet::insert"]
-            known = S.disc(S.v(gets[0][3])) == 1
+            known = S.disc(S.v(gets[0][3])) == 1      # (Option::copied / cloned keep the variant: axiom in lib/smt.py)
             if lo or pa:
                 n_new += 1
                 L.expect_unsat("import step: a module is loaded/parsed only if it is not yet in the dependency map", cond + [known], on_sat)
@@ -300,8 +300,10 @@ def check():
                 n_known += 1
                 L.expect_unsat("import step: a known module is only linked, never loaded again", cond + [z3.Not(known)], on_sat)
                 m = ms.proj(ms.proj(gets[0][3], ("v", "Some"), E), ("f", 0), E)
+                # the node may be read through the reference or copied out of the map first
+                ms_ = [m] + [ms.proj(ms.proj(e[3], ("v", "Some"), E), ("f", 0), E) for e in tcalls if e[1] in ("Option::copied", "Option::cloned") and e[2][0] == gets[0][3]]
                 okk = len(edges) == 1 and not ins and not push and not addn and not mins and \
-                    any(t == m for t in ms.subterms(edges[0][2][1]))
+                    any(t in ms_ for t in ms.subterms(edges[0][2][1]))
                 structural("import step (known module): exactly one edge from the known node to the importer, nothing else", okk)
         # --- collecting the imports of the module taken from the work list
         joins = [e for e in tcalls if e[1] == "Locator::join"]
